@@ -275,6 +275,11 @@ def run(ctx, rep):
     # a comparison that uses the current file's block size can fail for equal data, so a mismatch must be treated conservatively
     rep.rule('R-C05-6', 'comparisons of recovered/read data with a possibly inherited past hash treat a mismatch conservatively', 2)
     rp_ = P.fn('repair')
+    # the loop that judges recovered CHG blocks may have been split out of repair() into a static helper: analyse it where it lives
+    _host = locate_in_helpers(P, rp_, lambda g_: any(state_is(guards_of(g_, bc_, expand=True), st['CHG']) for bc_ in g_.calls('blockcmp')))
+    if _host is not None:
+        rp_ = _host
+        rep.analysed(rp_)
     for bc in rp_.calls('blockcmp'):
         gs = guards_of(rp_, bc)
         chg = state_is(guards_of(rp_, bc, expand=True), st['CHG'])
